@@ -139,12 +139,16 @@ CHECKS["C20"] = dict(
          "coincident points, zero-radius spheres).", design="5 C20")
 
 CHECKS["C05"] = dict(
-    technique="Coq proofs of the exact parts (predicate alternation and similarity invariance, model soundness) + degenerate-family differential run in debug and release with the decision trace hook",
+    technique="Coq proofs of the exact parts (predicate alternation and similarity invariance, model soundness) and of the floating-point filter on IEEE binary64 (Flocq) + degenerate-family differential run in debug and release with the decision trace hook + bit-level correspondence of HalfSpace::clip with its Flocq model",
     text="Theorems: the exact predicate is alternating (cells deciding about the same five grid points agree), invariant under similarities of the grid, and the exact model "
          "never cuts the nearest-generator region whatever the degeneracy. Tie: degenerate families only (on walls/edges/corners, n = 1..3, collinear/coplanar, exact and near "
          "lattices, co-spherical sets, clusters, > 64 planes), debug and release under catch_unwind: no panic, finite values, debug == release, every cell = exact model cell "
-         "(C01 comparison), every recorded exact decision consistent with the grid map and the Coq predicate; runs that reached the exact path are counted (must be > 0).",
-    note="Absence of panics and finiteness of the floating-point pipeline are explored, not proved; the filter bound 1e-13(1+|n||p|) is not a proved error bound. The recorded "
+         "(C01 comparison), every recorded exact decision consistent with the grid map and the Coq predicate; runs that reached the exact path are counted (must be > 0). "
+         "Filter (kernel-checked, Flocq binary64, all finite inputs without overflow): a conclusive answer of HalfSpace::clip has the sign of the exact n.(v-p) of the floating-point "
+         "data it was given - the accumulated rounding error 11 u |n|_1 max(|p|,|v|) + 18 eta is strictly below the bound of the code; HalfSpace::new/clip (public API) are compared "
+         "bit for bit with the Flocq model evaluated inside Coq on planes x vertices of constructed cells and on adversarial near-plane data, and with the exact rational sign.",
+    note="Absence of panics and finiteness of the floating-point pipeline are explored, not proved. The filter theorem covers the rounding of clip itself, not the error of the vertex "
+         "position it is applied to (computed from three planes): that error is unbounded for ill-conditioned vertices, which is the recorded finding K2/K5. The recorded "
          "known findings K1, K2, K4, K5 are violations of this property on the current tree (witnesses in corpus/).", design="5 C05")
 CHECKS["C09"] = dict(
     technique="Coq proof over a pipeline DSL (any split tree) + pipelines re-extracted from src/voronoi.rs into a Coq term every run + byte-level run over thread counts",
